@@ -8,7 +8,9 @@
 (* removed again on every exit path.  The outcome of a flight is a function  *)
 (* of the mission kind and the builder options only.  The performance model  *)
 (* is an argument of each flight, not of the builder: kind "ok_other_model"   *)
-(* is a flyable mission flown with a second performance model.                *)
+(* is a flyable mission flown with a second performance model, kind           *)
+(* "ok_given_mass" one flown with an explicitly given (valid) starting mass:  *)
+(* optional arguments of a flight are per-flight as well.                     *)
 (***************************************************************************)
 EXTENDS Naturals, Sequences, TLC
 
